@@ -199,6 +199,19 @@ CLAIMED = {
             'copying to pseudo-reads, the --consensus command line; get_aligned_blocks/find_ranges/consecutive_groups and pysam '
             'record construction are assumed; extract_stretch_from_dict through its length contract.',
             '5/C15'),
+    'C06': ('Proof that NlaIIIFragment.__eq__ / CHICFragment.__eq__ / Fragment.umi_eq answer True exactly for same cell, strand and '
+            'cut site (within the assignment radius for CHIC) with UMIs within the allowed Hamming distance (exactly equal UMIs at '
+            'distance 0); that Molecule.add_fragment accepts the first fragment, otherwise accepts iff the molecule / some member '
+            'matches, adds an accepted fragment once and changes nothing on refusal; that the assignment block of '
+            'MoleculeIterator (pooling 0, exact UMIs, any buffer size: loop invariant) keeps buffered molecules at pairwise '
+            'different (cell, strand, site, UMI) keys and puts a fragment into the molecule of its key or founds it; that '
+            'Molecule.write_tags gives an arbitrary fragment at an arbitrary rank RC = rank and the duplicate flag iff rank > 0 '
+            'whatever flags it carried (so re-tagging is idempotent on these fields), af/TF = molecule size; plus the cut-site '
+            'contracts of C09 (fragments of a molecule share the site they are given).',
+            'hamming_distance is an uninterpreted function (its N-as-wildcard definition is not under contract); '
+            'umi_counter.most_common tie order for distance > 0 and the pooling_method 1 assignment block are not under contract; '
+            'pysam flag/tag setters through the record stub; Molecule._add_fragment span bookkeeping not under contract.',
+            '5/C06'),
 }
 
 NOT_YET = 'check not built yet (framework under construction; see DESIGN.md section 5)'
